@@ -94,6 +94,43 @@ type verifFailConf struct{}
 
 func (verifFailConf) init(*Node) (Endpoint, error) { return nil, verifErrSetup }
 
+// endpoint configuration that counts how often it was set up
+type verifCountingConf struct {
+	ep    *verifEndpoint
+	inits *int
+}
+
+func (c verifCountingConf) init(*Node) (Endpoint, error) { *c.inits++; return c.ep, nil }
+
+// C12, failed initialization for another reason than an endpoint (one schedule): the dialect is invalid (two messages
+// with one id), a missing version, a zero system id. Initialize reports the error, no goroutine is left, and every
+// endpoint that was set up on the way has been closed (scripted endpoints that count set-ups and closes).
+func verifHarness_C12_init_failure_conf(kind int) {
+	inits := 0
+	ep1, ep2 := &verifEndpoint{one: true}, &verifEndpoint{one: true}
+	n := &Node{Dialect: verifHarnessDialect, OutVersion: V2, OutSystemID: 1,
+		Endpoints: []EndpointConf{verifCountingConf{ep1, &inits}, verifCountingConf{ep2, &inits}}}
+	switch kind {
+	case 0:
+		n.Dialect = &dialect.Dialect{Version: 3, Messages: []message.Message{&frame.MessageVerifScalars{}, &frame.MessageVerifScalars{}}}
+	case 1:
+		n.OutVersion = 0
+	case 2:
+		n.OutSystemID = 0
+	case 3:
+		n.OutVersion = V1
+		n.OutKey = new(frame.V2Key)
+	}
+	var ierr error
+	stillBlocked := verifRunGoroutines(func() { ierr = n.Initialize() })
+	verifAssert(ierr != nil, "C12/init-failure/reported")
+	verifAssert(!stillBlocked && verifBlockedGoroutines() == 0, "C12/init-failure/no-goroutine-left-behind")
+	verifAssert(ep1.closed+ep2.closed == inits, "C12/init-failure/every-endpoint-set-up-is-closed")
+	verifAssert(ep1.closed <= 1 && ep2.closed <= 1, "C12/init-failure/closed-at-most-once")
+	verifAssert(ep1.calls == 0 && ep2.calls == 0, "C12/init-failure/no-provider-started")
+	verifReach("C12/init-failure-conf")
+}
+
 // C12, failed initialization (one schedule): the first endpoint is usable (custom transport: it would yield a channel
 // at once), the second one cannot be set up. Initialize reports the error, and nothing is left behind: no goroutine,
 // and the endpoint that was already set up has been closed (the custom transport exactly once).
